@@ -654,7 +654,13 @@ impl Open for VirtualSystem {
         flags: EnumSet<OpenFlag>,
         mode: Mode,
     ) -> impl Future<Output = Result<Fd>> + use<> {
-        let resolution = self.resolve_file(path, access, flags, mode);
+        // As in a real kernel, the file is neither created nor truncated when
+        // no file descriptor is available for it.
+        let resolution = if self.current_process().has_unused_fd() {
+            self.resolve_file(path, access, flags, mode)
+        } else {
+            Err(Errno::EMFILE)
+        };
         let system = self.clone();
 
         async move {
